@@ -135,12 +135,48 @@ def _real_scalar_value(t: torch.Tensor) -> Any:
     return t.item()
 
 
+def _reinterpret(val: Any, src: torch.dtype, tgt: torch.dtype) -> Any:
+    """the same storage element read with another dtype of the same size (what Tensor.view(dtype) does)"""
+    if src == tgt or val is None:
+        return val
+    if src in FSORT and tgt in ISIZE:
+        return z3.fpToIEEEBV(val)
+    if src in ISIZE and tgt in FSORT:
+        return z3.fpBVToFP(val, FSORT[tgt])
+    return val
+
+
 class BTensor:
-    def __init__(self, meta: torch.Tensor, val: Any, scrambled: bool = False):
+    def __init__(self, meta: torch.Tensor, val: Any, scrambled: bool = False, root: Optional["BTensor"] = None):
         self.meta = meta
-        self.val = val
-        self.version = 0
+        self.root = root  # the tensor whose storage this one is a view of (view / detach / reshape...): in-place writes go through
+        self._val = val
+        self._version = 0
         self.scrambled = scrambled
+
+    @property
+    def val(self) -> Any:
+        if self.root is None:
+            return self._val
+        return _reinterpret(self.root.val, self.root.dtype, self.dtype)
+
+    @val.setter
+    def val(self, v: Any) -> None:
+        if self.root is None:
+            self._val = v
+        else:
+            self.root.val = _reinterpret(v, self.dtype, self.root.dtype)
+
+    @property
+    def version(self) -> int:
+        return self._version if self.root is None else self.root.version
+
+    @version.setter
+    def version(self, n: int) -> None:
+        if self.root is None:
+            self._version = n
+        else:
+            self.root.version = n
 
     # ---- attributes the library reads
     @property
@@ -223,6 +259,9 @@ class BTensor:
     __rxor__ = _bin("bitwise_xor", True)
     __lshift__ = _bin("bitwise_left_shift")
     __rshift__ = _bin("bitwise_right_shift")
+    __eq__ = _bin("eq")  # type: ignore[assignment]  # element-wise, like torch.Tensor
+    __ne__ = _bin("ne")  # type: ignore[assignment]
+    __hash__ = object.__hash__  # type: ignore[assignment]
     __lt__ = _bin("lt")
     __le__ = _bin("le")
     __gt__ = _bin("gt")
@@ -320,15 +359,12 @@ def _dispatch(name: str, func: Any, args: Tuple[Any, ...], kwargs: Dict[str, Any
                     sess.events.append(f"view({src}->{tgt}) changes element size: shape "
                                        f"{tuple(first.shape)}->{tuple(mout.shape)}")
                 return out(sess.fresh_var(tgt) if sess else None, scrambled=True)
-            if src in FSORT and tgt in ISIZE:
-                return out(z3.fpToIEEEBV(first.val))
-            if src in ISIZE and tgt in FSORT:
-                return out(z3.fpBVToFP(first.val, FSORT[tgt]))
-            return out(first.val)
-        return out(first.val)
+            return BTensor(mout, None, scr, root=first)  # same storage, other element type
+        return BTensor(mout, None, scr, root=first)
     if name in SHAPE_ONLY:
-        r = out(first.val)
-        return r
+        if name == "clone":
+            return out(first.val)
+        return BTensor(mout, None, scr, root=first)  # views (and detach) share the storage of their base
     # 2. element-wise value semantics
     if name in ("add", "sub", "mul", "true_divide"):
         a, b = _operand(args[0], rt), _operand(args[1], rt)
